@@ -62,7 +62,7 @@ VALIDATE_MESSAGES = ("does not fit in container", "is not visible from ego", "in
 
 # boxes with the same dimensions as a non-convex catalogue shape: the alternatives of a random
 # `shape` whose width / length / height are fixed (C02 only; appended so that C04's ids do not move)
-for _name, _base, _scale in (("slab", "cube", (2, 2, 1)), ("bar3", "cube", (3, 1, 1))):
+for _name, _base, _scale in (("slab", "cube", (2, 2, 1)), ("bar3", "cube", (3, 1, 1)), ("longwall", "cube", (30, 1, 4))):
     if _name not in G.CAT_INDEX:
         G.CAT.append(G._entry(_name, _base, _scale, kind="box"))
         G.CAT_INDEX[_name] = len(G.CAT)
@@ -123,8 +123,8 @@ def _poly_cont(pi):
     return {"kind": "poly", "shape": 0, "rot": 0, "pos": [0, 0, 0], "poly": pi}
 
 
-def _prog(objs, conts=(), ws=0, user=(), note=""):
-    return {"objs": list(objs), "conts": list(conts), "ws": ws, "user": [dict(u) for u in user], "vd": VD,
+def _prog(objs, conts=(), ws=0, user=(), note="", vd=VD):
+    return {"objs": list(objs), "conts": list(conts), "ws": ws, "user": [dict(u) for u in user], "vd": vd,
             "blanket": 1, "note": note}
 
 
@@ -152,7 +152,7 @@ def gen_programs(rng, n):
 
     fam = 0
     while len(progs) < n:
-        f = fam % 11
+        f = fam % 13
         fam += 1
         if f == 0:  # two objects, collisions, box workspace
             a, b = rng.choice(small), rng.choice(small)
@@ -250,6 +250,33 @@ def gen_programs(rng, n):
                          allow=(1,), cont=2, mut=mut)]
             progs.append(_prog(objs, [_mesh_cont("hall"), _mesh_cont(csh, cpos)], 1, [],
                                "fixed pose, own regionContainedIn" + (" + mutate" if mut else "")))
+        elif f == 11:  # NON-convex obstacle (no allowCollisions) and a small convex object, some of whose
+            # positions lie wholly inside the obstacle's material without touching its surface
+            obst = rng.choice(("bigL", "roomL"))
+            rot = rng.choice(YAW_ONLY + [rng.randrange(5, 25)])
+            m = G.ROTS[rot - 1][0]
+            opos = [_even(rng.randint(-6, 6)), _even(rng.randint(-6, 6)), 0]
+            if obst == "bigL":
+                inside = [(-4, -4, 0), (4, -4, 0), (-4, 4, 0), (0, -4, 0)]
+                outside = [(4, 4, 0), (20, 0, 0), (6, 2, 0)]
+            else:
+                inside = [(-6, -6, 0), (6, -6, 0), (-6, 6, 0), (0, -6, 0), (-6, -6, 4), (8, -8, -4)]
+                outside = [(6, 6, 0), (22, 0, 0), (4, 2, 0)]
+            loc = rng.sample(inside, 3) + rng.sample(outside, 2)
+            pos = [[opos[i] + sum(m[i][j] * v[j] for j in range(3)) for i in range(3)] for v in loc]
+            objs = [_obj(obst, [opos], rot=[rot]),
+                    _obj(rng.choice(("cube", "cube", "bar")), pos, rot=[rng.choice(YAW_ONLY)])]
+            progs.append(_prog(objs, [_mesh_cont("hall")], 1, [], "small object inside a non-convex obstacle"))
+        elif f == 12:  # LARGE occluder: a long wall whose centre is out of range / out of the view cone
+            kind = rng.choice(("rv", "vis"))
+            vd = rng.choice((40, 48))
+            side = rng.choice((1, -1))
+            wallpos = [[side * 56, 12, 0]] + ([[0, 12, 0]] if rng.random() < 0.4 else [])
+            tpos = [[0, 24, 0]] + rng.sample([[0, -16, 0], [side * 2, 28, 0], [0, 6, 0]], 1)
+            objs = [_obj("cube", [[0, 0, 0]]),
+                    _obj("longwall", wallpos, occ=1),
+                    _obj("cube", tpos, vis=1 if kind == "vis" else 0, rv=1 if kind == "rv" else 0)]
+            progs.append(_prog(objs, [], 0, [], f"long occluding wall, centre out of range ({kind})", vd=vd))
         else:  # non-planar poses in an L-shaped room
             a, b = rng.choice(small), rng.choice(small)
             objs = [_obj(a, near(rng, 2, 6), rot=[rng.randrange(5, 25)]),
@@ -609,7 +636,7 @@ def main(tier):
         "the list and of its reverse beyond); the real orders are steered with a scripted clock",
         "gen_solids / to_scenic (JSON constant <-> Scenic text) is trusted glue",
     ]
-    nprog = 32 if tier == "quick" else 320
+    nprog = 39 if tier == "quick" else 390
     if os.environ.get("VERIF_C02_PROGRAMS"):  # debugging knob (mutant runs)
         nprog = int(os.environ["VERIF_C02_PROGRAMS"])
     rng = random.Random(sd * 7907 + 2)
